@@ -580,7 +580,13 @@ func (a *Application) startProxyGoroutine(
 			streamRecorder.preHeaderErr = err
 		}
 		streamRecorder.ensureHeadersReady()
-		pipeWriter.Close() // Signal end of stream
+		if err != nil {
+			// the backend went away mid-answer: the translator must not take this for the end of
+			// the completion and close the message with a stop reason of its own making
+			pipeWriter.CloseWithError(err)
+		} else {
+			pipeWriter.Close() // Signal end of stream
+		}
 		proxyErrChan <- err
 	}()
 	return proxyErrChan
